@@ -296,9 +296,10 @@ func runC06(e *Env) {
 	r.Rule("C06.R1", "paths", "retransmission only while not expired and due", 2)
 	r.Rule("C06.R2", "flows", "expiry and due-time predicates; timer origin after the NSTART wait", 5)
 	r.Rule("C06.R3", "flows", "retransmitted bytes come from the private clone; Clone rewinds the body", 4)
-	r.Rule("C06.R4", "siblings", "every removal from the pending table releases the copy; ACK arm releases before waking the writer", 6)
+	r.Rule("C06.R4", "siblings", "every removal from the pending table releases the copy; ACK arm releases before waking the writer; the writer runs the cleanup on every exit", 7)
 	r.Rule("C06.R5", "flows", "NSTART weights balance", 1)
 	r.Rule("C06.R6", "waits", "the writer's wait has all three exits", 1)
+	r.Rule("C06.R7", "flows", "the transmission parameters reach the predicates: server config → per-peer config → Transmission → CheckExpirations → IsExpired/Retransmit", 13)
 	chk := e.fn("C06.R1", "udp/client.Conn.checkMidHandlerContainer")
 	if chk != nil && e.want("C06.R1") {
 		var exp, due *ssa.If
@@ -330,6 +331,10 @@ func runC06(e *Env) {
 	}
 	if e.want("C06.R4") {
 		c06Removals(e)
+		checkCleanupCallers(e, "C06.R4")
+	}
+	if e.want("C06.R7") {
+		c06ParamChain(e, chk)
 	}
 	if e.want("C06.R5") {
 		// same obligation as C13.R4's NSTART balance
@@ -490,7 +495,11 @@ func isAtomicLoadOf(v ssa.Value, field string) bool {
 	if !ok || !strings.HasSuffix(core.CalleeName(c), ".Load") {
 		return false
 	}
-	_, fl, ok := core.FieldOf(core.Arg(c, 0))
+	recv := core.Arg(c, 0)
+	if ld, isLd := recv.(*ssa.UnOp); isLd && ld.Op == token.MUL {
+		recv = ld.X // pointer-typed field: the receiver is the loaded pointer
+	}
+	_, fl, ok := core.FieldOf(recv)
 	return ok && fl == field
 }
 
@@ -653,5 +662,108 @@ func c06Removals(e *Env) {
 			}
 		})
 		e.R.Check(okNil, rule, "udp/client.midElement.ReleaseMessage:nils-under-lock", e.fpos(f), "the copy pointer is set to nil under the entry's lock when released", "the released copy is not forgotten under the lock: it can be released or used again")
+	}
+}
+
+// c06ParamChain follows MAX_RETRANSMIT, ACK_TIMEOUT and NSTART from the configuration a user sets to the comparison that
+// uses them. Each link is a field-to-field copy visible in the code; a dropped link leaves the default in force silently.
+func c06ParamChain(e *Env, chk *ssa.Function) {
+	rule := "C06.R7"
+	params := []string{"TransmissionNStart", "TransmissionAcknowledgeTimeout", "TransmissionMaxRetransmit"}
+	// link 1: the servers copy their own setting into the per-peer connection's config
+	for _, fn := range []string{"udp/server.Server.getOrCreateConn", "dtls/server.Server.createConn"} {
+		f := e.fn(rule, fn)
+		if f == nil {
+			continue
+		}
+		for _, p := range params {
+			ok := false
+			core.Instrs(f, func(in ssa.Instruction) {
+				st, isSt := in.(*ssa.Store)
+				if !isSt {
+					return
+				}
+				if own, fl, isF := core.FieldOf(st.Addr); !isF || fl != p || own != "udp/client.Config" {
+					return
+				}
+				ld, isLd := core.Unwrap(st.Val).(*ssa.UnOp)
+				if !isLd || ld.Op != token.MUL {
+					return
+				}
+				fa, isFA := ld.X.(*ssa.FieldAddr)
+				if !isFA {
+					return
+				}
+				if _, fl2, ok2 := core.FieldOf(fa); !ok2 || fl2 != p {
+					return
+				}
+				base := fa.X
+				if bl, isBl := base.(*ssa.UnOp); isBl && bl.Op == token.MUL {
+					base = bl.X // s.cfg is a pointer
+				}
+				if _, fl3, ok3 := core.FieldOf(base); ok3 && fl3 == "cfg" {
+					ok = true
+				}
+			})
+			e.R.Check(ok, rule, fn+":copies "+p, e.fpos(f), "cfg."+p+" = s.cfg."+p, "the per-peer connection no longer receives the server's "+p+": the default stays in force whatever the user configured")
+		}
+	}
+	// link 2: the connection's Transmission is built from the same-named config fields, in the struct's own order
+	if f := e.fn(rule, "udp/client.NewConnWithOpts"); f != nil {
+		want := map[string]string{"nStart": "TransmissionNStart", "acknowledgeTimeout": "TransmissionAcknowledgeTimeout", "maxRetransmit": "TransmissionMaxRetransmit"}
+		got := map[string]bool{}
+		core.Instrs(f, func(in ssa.Instruction) {
+			st, isSt := in.(*ssa.Store)
+			if !isSt {
+				return
+			}
+			own, fl, isF := core.FieldOf(st.Addr)
+			if !isF || own != "udp/client.Transmission" {
+				return
+			}
+			c, isC := core.Unwrap(st.Val).(*ssa.Call)
+			if !isC || len(c.Call.Args) != 1 {
+				return
+			}
+			ld, isLd := core.Unwrap(c.Call.Args[0]).(*ssa.UnOp)
+			if !isLd {
+				return
+			}
+			if _, src, ok := core.FieldOf(ld.X); ok && src == want[fl] {
+				got[fl] = true
+			}
+		})
+		for _, fl := range []string{"nStart", "acknowledgeTimeout", "maxRetransmit"} {
+			e.R.Check(got[fl], rule, "udp/client.NewConnWithOpts:"+fl, e.fpos(f), "Transmission."+fl+" initialised from cfg."+want[fl], "Transmission."+fl+" is not initialised from cfg."+want[fl])
+		}
+	}
+	// link 3: CheckExpirations reads the live values and hands them to checkMidHandlerContainer
+	if f := e.fn(rule, "udp/client.Conn.CheckExpirations"); f != nil {
+		for _, fl := range []string{"maxRetransmit", "acknowledgeTimeout"} {
+			ok := false
+			core.Instrs(f, func(in ssa.Instruction) {
+				if c, isC := in.(*ssa.Call); isC && isAtomicLoadOf(c, fl) {
+					ok = true
+				}
+			})
+			e.R.Check(ok, rule, "udp/client.Conn.CheckExpirations:loads "+fl, e.fpos(f), "the pass reads transmission."+fl+" atomically", "the pass does not read transmission."+fl)
+		}
+	}
+	// link 4: checkMidHandlerContainer passes its own parameters to the predicates
+	if chk != nil && len(chk.Params) >= 4 {
+		for _, l := range []struct {
+			callee string
+			param  int
+			what   string
+		}{{"udp/client.midElement.IsExpired", 2, "maxRetransmit"}, {"udp/client.midElement.Retransmit", 3, "acknowledgeTimeout"}} {
+			cs := core.CallsNamed(chk, l.callee)
+			ok := len(cs) > 0
+			for _, c := range cs {
+				if core.Unwrap(core.Arg(c, 2)) != ssa.Value(chk.Params[l.param]) {
+					ok = false
+				}
+			}
+			e.R.Check(ok, rule, "udp/client.Conn.checkMidHandlerContainer:passes "+l.what, e.fpos(chk), shortType(l.callee)+" receives the pass's "+l.what, shortType(l.callee)+" is not given the "+l.what+" the pass read")
+		}
 	}
 }
